@@ -119,6 +119,19 @@ def cases(tier: str, rng: random.Random) -> List[Case]:
             xs = G.dedupe_hashable(xs)
         out.append(std_case((k, AINT, [], [], None), ({"ListV": "VList", "UTupleV": "VTuple", "SetV": "VSet"}[k], xs), "async", tag="a:latency"))
         out.append(std_case(("MapV", AINT, AINT, [], [], None), ("VDict", [P(x, x) for x in G.dedupe_hashable(xs)]), "async", tag="a:latency"))
+    # unions of seven and eight variants (ends of the typed constructor's argument list)
+    for v_, x_ in G.wide_union_cases():
+        for m_ in ("sync", "async"):
+            out.append(std_case(v_, x_, m_, tag="a:wide-union"))
+    # sets over wrapped / user-written / transforming item validators
+    STRP_ = ("Scalar", ("KStr",), None, [("Strip",)], [("PNotBlank",), ("PMaxLength", 2)], [])
+    for v_, x_ in G.set_children_cases():
+        for m_ in ("sync", "async"):
+            out.append(std_case(v_, x_, m_, lazy=[STRP_], tag="a:set-children"))
+    # optionals whose none_validator is the user's own
+    for v_, x_ in G.custom_none_cases():
+        for m_ in ("sync", "async"):
+            out.append(std_case(v_, x_, m_, tag="a:custom-none"))
     return out
 
 
